@@ -5,7 +5,7 @@ from hlib import *
 import importlib
 pid, idx, model = sys.argv[1], int(sys.argv[2]), json.loads(sys.argv[3])
 m = mirmod.load(); sc = schemamod.SrcSchema(); sc.reconcile(m.struct_fields)
-case = importlib.import_module(pid).m_cases('quick')[idx]
+mod = importlib.import_module(pid); case = mod.m_cases('quick')[idx]; sc = getattr(mod,'SC',sc); sc.reconcile(m.struct_fields)
 h = Harness(m, 'c', pid, mode='float'); b = validate.FloatBuilder(h, sc, model)
 recv = b.value(case.recv_ty, case.recv); st=h.new_state()
 args=[h.put(st,b.value(t.lstrip('&'),v)) if t.startswith('&') else b.value(t,v) for t,v in case.calls[0].args]
